@@ -350,6 +350,12 @@ func (p *Pool) Put(x any) {
 		return
 	}
 	simrt.Y(-31)
+	// Whoever puts a buffer back gives it up: scribble over it at once, so that a frame encoded
+	// in it and sent afterwards (use after Put) goes out as garbage instead of looking fine until
+	// another task happens to take the buffer in between.
+	if simrt.Active() {
+		poison(x, p.nextGen())
+	}
 	// the release edge must be published before the object becomes visible
 	if hb := p.hbForPut(x); hb != nil {
 		hb.Lock()
